@@ -15,6 +15,7 @@ EXPLANATION = ("EntrySetIterator.__next__ is verified (inductive invariant over 
 TRUSTED = ["A-SORT (list.sort is a stable sort by key)", "copy.copy is a shallow copy", "A-DT: .date() is the calendar date of the timestamp in its own UTC offset",
            "A-ANNOT", "heap closedness (fields of allocated objects refer to allocated objects)"]
 ASSUMPTIONS = TRUSTED
+E2E = {"quick": 40, "thorough": 1500, "on_doubt": 400}
 AES = "rp2.abstract_entry_set.AbstractEntrySet"
 MATCHER_MODULES = ["rp2.tax_engine", "rp2.accounting_engine", "rp2.abstract_accounting_method", "rp2.gain_loss", "rp2.plugin.accounting_method.fifo",
                    "rp2.plugin.accounting_method.lifo", "rp2.plugin.accounting_method.hifo", "rp2.plugin.accounting_method.lofo"]
